@@ -15,7 +15,7 @@ RULE = ('exhaustive boolean space role(server, client) x marker(own, other role\
         'instantiated with database names of each shape (quick: random matching names; thorough: every matching database name in every combination class, plus unknown names of the same shapes); '
         'oracle = 10-line model of the published rule over (flagged set, advisory names, additions recommended); a case is non-trivial when the audit completed and the flagged set was compared; '
         'distinct = distinct (combination, instantiation, rendering)')
-REQUIRED = {'runs_with_rate_check': 4, 'openssh_2048_group_exchange_runs': 8, 'cross_category_cases': 10, 'multi_target_blocks': 8, 'audits_completed': 100, 'flagged_sets_compared': 100, 'expected_exposed': 20, 'expected_advisory': 20, 'client_role': 20}
+REQUIRED = {'putty_clients': 10, 'runs_with_rate_check': 4, 'openssh_2048_group_exchange_runs': 8, 'cross_category_cases': 10, 'multi_target_blocks': 8, 'audits_completed': 100, 'flagged_sets_compared': 100, 'expected_exposed': 20, 'expected_advisory': 20, 'client_role': 20}
 ASSUMPTIONS = ['with different lists per direction the peer\'s own sending direction decides (client-to-server lists of a client, server-to-client lists of a server); the report can only show warnings on the names it displays (server-to-client lists)', 'shapes are the published ones: prefix chacha20-poly1305; suffixes -cbc, -cbc@openssh.org, -cbc@ssh.com, rijndael-cbc@lysator.liu.se; suffix -etm@openssh.com',
                '"carries the Terrapin warning" = a warning- or failure-level note naming CVE-2023-48795 (the strict-kex pseudo algorithm\'s informational text is not a warning)']
 MANIFEST = {
@@ -177,6 +177,9 @@ def run_case(c):
     rng.shuffle(enc)
     rng.shuffle(mac)
     banner = 'SSH-2.0-OpenSSH_9.%d' % rng.randint(0, 9)
+    if client and c['seed'] % 3 != 0:
+        # clients of other makes: the rule does not depend on who the peer says it is (PuTTY gets an extra note of its own)
+        banner = ['SSH-2.0-PuTTY_Release_0.80', 'SSH-2.0-dropbear_2022.83', 'SSH-2.0-PuTTY_Release_0.76', 'SSH-2.0-SomeClient_1.0'][c['seed'] % 4]
     script = {'banner': banner, 'kex': audit.sym_kex(kex, ['ssh-ed25519'], enc, mac), 'hostkeys': {'ssh-ed25519': {'type': 'ed25519'}}, 'gex': None}
     if c.get('rate'):
         kex = kex + ['diffie-hellman-group16-sha512']
@@ -222,7 +225,7 @@ def run_case(c):
         V_adv = asym_V                              # the advisory names everything exposed in the peer's own direction
         V = asym_V & (set(enc) | set(mac))          # warnings can only be seen on names the report displays
     viol = []
-    counters = {'client_role': 1 if client else 0}
+    counters = {'client_role': 1 if client else 0, 'putty_clients': 1 if client and 'PuTTY' in banner else 0}
     if c.get('rate') and any(e['k'] == 'rate-test-enter' for e in (r.monitor or [])):
         counters['runs_with_rate_check'] = 1
     if c.get('gex2048') and p.count('gex-request') > 0:
